@@ -582,6 +582,86 @@ def mk_substitute(N, styles, fixed=None):
 
 
 # ---------------------------------------------------------------------------------------------------------------
+# key names that coincide with the name a fusion would give to the fused task
+
+
+CLASH_FORMS = (("k0", "k2", "k0-k2", "other"),
+               (("inc-123", 0), ("add-456", 0), ("inc-add-456", 0), ("other-789", 0)))
+_PERMS = ((0, 1, 2), (0, 2, 1), (1, 0, 2), (1, 2, 0), (2, 0, 1), (2, 1, 0))
+
+
+def mk_name_clash(fn, pmax=4):
+    """graph: a (task or literal), b = (f1, a), and an unrelated c (task or literal).  With clash=1 the key of c is exactly the name
+    the default renamers give to the fused chain a -> b ('k0-k2', resp. ('inc-add-456', 0)); with clash=0 it is some other name.
+    fn: 'fuse_linear' / 'fuse' (legacy tuples, rename_keys=True) or 'fuse_linear_task_spec' (Task objects)."""
+    spec = fn == "fuse_linear_task_spec"
+
+    def setup(e):
+        form = e.choice("form", len(CLASH_FORMS))
+        clash = e.flag("clash")
+        a_data = e.flag("a_is_literal")
+        c_data = e.flag("c_is_literal")
+        va = e.int("va", *((None, None) if spec else (0, 1)))
+        vc = va + 10
+        rq = [j for j in range(3) if e.flag(f"r{j}")]
+        perm = e.pick("dict_order", _PERMS)
+        params = tuple(e.int(n, 0, pmax) for n in ("ave_width", "max_width", "max_height", "max_depth_new_edges")) if fn == "fuse" else ()
+        return form, clash, a_data, c_data, va, vc, rq, perm, params
+
+    def names(form, clash):
+        ka, kb, kclash, kother = CLASH_FORMS[form]
+        return [ka, kb, kclash if clash else kother]
+
+    def call(form, clash, a_data, c_data, va, vc, rq, perm, params):
+        K = names(form, clash)
+        if spec:
+            vals = [DataNode(K[0], va) if a_data else Task(K[0], FUNCS[0]),
+                    Task(K[1], FUNCS[1], TaskRef(K[0])),
+                    DataNode(K[2], vc) if c_data else Task(K[2], FUNCS[2])]
+        else:
+            vals = [va if a_data else (FUNCS[0],), (FUNCS[1], K[0]), vc if c_data else (FUNCS[2],)]
+        dsk = {K[j]: vals[j] for j in perm}
+        keys = [K[j] for j in rq]
+        if fn == "fuse_linear_task_spec":
+            return TS.fuse_linear_task_spec(dsk, keys), None
+        if fn == "fuse_linear":
+            return O.fuse_linear(dsk, keys=keys or None, rename_keys=True)
+        aw, mw, mh, md = params
+        return O.fuse(dsk, keys=keys or None, ave_width=aw, max_width=mw, max_height=mh, max_depth_new_edges=md, rename_keys=True)
+
+    def want(a_data, c_data, va, vc):
+        wa = va if a_data else (0,)
+        return [wa, (1, wa), vc if c_data else (2,)]
+
+    def run(e, form, clash, a_data, c_data, va, vc, rq, perm, params):
+        K = names(form, clash)
+        new, deps = call(form, clash, a_data, c_data, va, vc, rq, perm, params)
+        w = want(a_data, c_data, va, vc)
+        for j in rq:
+            e.check(K[j] in new, f"{fn}: requested key {K[j]!r} is missing from the returned graph (keys {sorted(map(repr, new))})")
+        got = C.get(new, [K[j] for j in rq]) if rq else ()
+        for j, g in zip(rq, got):
+            msg = f"{fn}: value of {K[j]!r} changed in a graph that also has the key {K[2]!r}"
+            if e.mode == "native":
+                msg += f": {g!r} instead of {w[j]!r}"
+            e.check(lambda: e.equal(g, w[j]), msg)
+        return sorted(map(repr, new)), list(got), check_depmap(e, new, deps, fn)
+
+    def e2e(model):
+        args = setup(NativeEngine(model))
+        K = names(args[0], args[1])
+        new, _ = call(*args)
+        rq = args[6]
+        w = want(*args[2:6])
+        if rq:
+            for j, g in zip(rq, dask.get(new, [K[j] for j in rq])):
+                if g != w[j]:
+                    raise Violation(f"{fn}: dask.get gives {g!r} for {K[j]!r}, expected {w[j]!r}")
+
+    return Obligation(f"name_clash[{fn}]", setup, run, patches=_fuse_patches if fn == "fuse" else None, e2e=e2e, e2e_every=17)
+
+
+# ---------------------------------------------------------------------------------------------------------------
 
 
 def obligations(tier):
@@ -591,13 +671,17 @@ def obligations(tier):
         obs.append(mk_cull(2, "ln"))
         obs.append(mk_inline(3, "tln"))
         obs.append(mk_inline_functions(3, "tn"))
+        D3 = {0: "d", 1: "t", 2: "t", 3: "t"}
         obs.append(mk_fuse_linear(3, "tu"))
-        obs.append(mk_fuse(3, "tu", 4))
-        obs.append(mk_fuse(4, "t", 4, fixed={0: "d", 1: "t", 2: "t", 3: "t"}, opts=((0, None, False),), req="small"))
+        obs.append(mk_fuse_linear(4, "t", fixed=D3, opts=((0, None, False), (2, "list", True))))
+        obs.append(mk_fuse(3, "t", 4))
+        obs.append(mk_fuse(3, "u", 4, opts=((0, None, False),)))
+        obs.append(mk_fuse(4, "t", 4, fixed=D3, opts=((0, None, False),)))
         obs.append(mk_fuse_linear_task_spec(3, "TLN"))
         obs.append(mk_resolve_aliases(3, "T"))
         obs.append(mk_node_fuse(3, "TN"))
         obs.append(mk_substitute(3, "TLN"))
+        obs += [mk_name_clash(fn) for fn in ("fuse_linear", "fuse", "fuse_linear_task_spec")]
     else:
         D4 = {0: "d", 1: "t", 2: "t", 3: "t", 4: "t"}
         obs.append(mk_cull(4, "t"))
@@ -619,4 +703,5 @@ def obligations(tier):
         obs.append(mk_node_fuse(4, "T"))
         obs.append(mk_substitute(3, "TLN"))
         obs.append(mk_substitute(4, "TN"))
+        obs += [mk_name_clash(fn, 5) for fn in ("fuse_linear", "fuse", "fuse_linear_task_spec")]
     return obs
